@@ -1262,3 +1262,208 @@ Definition run_region (lines xrow : Z) (addr : list Z) : res (Z * Z * Z * Z) :=
   | Ok _ => Err EShape
   | Err x => Err x
   end.
+
+(* ================================================================== searches, RELATIVE to the extern ex_search *)
+(* cprog linked with a function ext in the place of the untranslated ex_search *)
+Fixpoint callfx (ext : list val -> mem -> res (val * mem)) (fuel depth f : nat) (args : list val) (m : mem) : res (val * mem) :=
+  match depth with
+  | O => Err EFuel
+  | S d =>
+      if Nat.eqb f X_ex_search then ext args m else
+      match nth_error cprog f with
+      | None => Err EShape
+      | Some fn =>
+          if Nat.eqb (length args) (fn_nparams fn) then
+            match exec (callfx ext fuel d) fuel (fn_body fn) (mkst (args ++ repeat VUndef (fn_nlocals fn - fn_nparams fn)) m) with
+            | OReturn v st => Ok (v, memm st)
+            | ONormal st => Ok (VUndef, memm st)
+            | OErr x => Err x
+            | _ => Err EShape
+            end
+          else Err EShape
+      end
+  end.
+Lemma callfx_S ext fuel d f args m : Nat.eqb f X_ex_search = false ->
+  callfx ext fuel (S d) f args m =
+  match nth_error cprog f with
+  | None => Err EShape
+  | Some fn =>
+      if Nat.eqb (length args) (fn_nparams fn) then
+        match exec (callfx ext fuel d) fuel (fn_body fn) (mkst (args ++ repeat VUndef (fn_nlocals fn - fn_nparams fn)) m) with
+        | OReturn v st => Ok (v, memm st)
+        | ONormal st => Ok (VUndef, memm st)
+        | OErr x => Err x
+        | _ => Err EShape
+        end
+      else Err EShape
+  end.
+Proof. intro H. cbn [callfx]. rewrite H. reflexivity. Qed.
+Lemma callfx_ext ext fuel d args m : callfx ext fuel (S d) X_ex_search args m = ext args m.
+Proof. cbn [callfx]. rewrite Nat.eqb_refl. reflexivity. Qed.
+
+(* the bodies of markidx and lbuf_jump for any `call` (the proofs of TrLbufMarks.tr_markidx / tr_lbuf_jump, which are stated for callf cprog) *)
+Lemma body_markidx call fuel mm c : -1 <= c <= 255 ->
+  exec call fuel (fn_body cf_markidx) (mkst [VInt c] mm) = OReturn (VInt (CapDefs2.markidx c)) (mkst [VInt c] mm).
+Proof.
+  intro Hc. cbn [cf_markidx fn_body]. xstep. cbn [do_builtin_m do_builtin]. unfold ct_arg.
+  destruct (Z.leb_spec (-1) c); [|lia]. destruct (Z.leb_spec c 255); [|lia]. cbn [andb bind]. xstep.
+  unfold CapDefs2.markidx, CapDefs2.z_islower, ct_islower, GenCap.markidx_lower_base, GenCap.markidx_special. cbn [find fst snd].
+  destruct ((97 <=? c) && (c <=? 122)) eqn:E1.
+  - xstep. rewrite chk_I32 by lia. reflexivity.
+  - xstep.
+    repeat (match goal with |- context [c =? ?k] => rewrite (Z.eqb_sym c k); destruct (k =? c) eqn:? end; xstep; try reflexivity).
+Qed.
+Lemma body_lbuf_jump call fuel mm bl lblk c bp pblk : nth_error mm bl = Some lblk -> marks_ints lblk -> (c < 256)%N -> bp <> bl ->
+  nth_error mm bp = Some pblk -> (0 < length pblk)%nat ->
+  (forall mm', call F_markidx [VInt (Z.of_N c)] mm' = Ok (VInt (CapDefs2.markidx (Z.of_N c)), mm')) ->
+  exists st, exec call fuel (fn_body cf_lbuf_jump) (mkst [VPtr bl 0; VInt (Z.of_N c); VPtr bp 0; VInt 0; VUndef] mm)
+             = match mark_of lblk c with
+               | None => OReturn (VInt 1) (mkst (locals st) mm)
+               | Some row => OReturn (VInt 0) (mkst (locals st) (upd mm bp (upd pblk 0 (VInt row))))
+               end.
+Proof.
+  intros Hb Hints Hc Hbp Hp Hl Hmk. set (k := CapDefs2.markidx (Z.of_N c)). pose proof (markidx_range (Z.of_N c) ltac:(lia)) as Hk. fold k in Hk.
+  cbn [cf_lbuf_jump fn_body]. xstep. rewrite Hmk. fold k. xstep. unfold mark_of. cbv zeta. fold k.
+  destruct (Z.ltb_spec k 0) as [K|K]; xstep; [eexists (mkst _ mm); reflexivity|].
+  destruct (Hints (Z.to_nat k) ltac:(lia)) as (zr & Hzr & Ir).
+  assert (Er : cellz lblk (Z.to_nat k) = zr) by (unfold cellz; rewrite Hzr; reflexivity). rewrite Er.
+  replace (0 + 1 * k) with k by lia.
+  rewrite (fld_load mm bl lblk (Z.to_nat k) _ k Hb Hzr) by lia. xstep. rewrite (wrap_I32_id _ Ir).
+  destruct (Z.ltb_spec zr 0) as [R|R]; xstep; [eexists (mkst _ mm); reflexivity|].
+  replace (0 + 1 * k) with k by lia.
+  rewrite (fld_load mm bl lblk (Z.to_nat k) _ k Hb Hzr) by lia. xstep. rewrite (wrap_I32_id _ Ir).
+  rewrite (store_ok mm bp pblk 0 _ Hp) by lia. xstep. rewrite (wrap_I32_id zr Ir).
+  eexists (mkst _ mm). reflexivity.
+Qed.
+
+Lemma callfx_ex_lbuf ext mm gbufs bl d fuel : nth_error mm G_bufs = Some gbufs -> nth_error gbufs BUFS_LB = Some (VPtr bl 0) ->
+  callfx ext fuel (S d) F_ex_lbuf [] mm = Ok (VPtr bl 0, mm).
+Proof.
+  intros Hb Hc. rewrite callfx_S by reflexivity. cbn [nth_error cprog F_ex_lbuf cf_ex_lbuf fn_nparams fn_nlocals length Nat.eqb Nat.sub repeat app].
+  fold (fn_body cf_ex_lbuf). rewrite (body_ex_lbuf _ _ mm gbufs bl Hb Hc). reflexivity.
+Qed.
+Lemma callfx_lbuf_len ext mm bl lblk len d fuel : nth_error mm bl = Some lblk -> nth_error lblk L_ln_n = Some (VInt len) -> int_ok len ->
+  callfx ext fuel (S d) F_lbuf_len [VPtr bl 0] mm = Ok (VInt len, mm).
+Proof.
+  intros Hb Hc Hi. rewrite callfx_S by reflexivity. cbn [nth_error cprog F_lbuf_len cf_lbuf_len fn_nparams fn_nlocals length Nat.eqb Nat.sub repeat app].
+  fold (fn_body cf_lbuf_len). rewrite (body_lbuf_len _ _ mm bl lblk len Hb Hc Hi). reflexivity.
+Qed.
+Lemma callfx_markidx ext mm c d fuel : -1 <= c <= 255 -> callfx ext fuel (S d) F_markidx [VInt c] mm = Ok (VInt (CapDefs2.markidx c), mm).
+Proof.
+  intro Hc. rewrite callfx_S by reflexivity. cbn [nth_error cprog F_markidx]. change (fn_nparams cf_markidx) with 1%nat. change (fn_nlocals cf_markidx) with 1%nat.
+  cbn [length Nat.eqb Nat.sub repeat app]. rewrite (body_markidx _ _ mm c Hc). reflexivity.
+Qed.
+Lemma callfx_lbuf_jump ext mm bl lblk c bp pblk d fuel : nth_error mm bl = Some lblk -> marks_ints lblk -> (c < 256)%N -> bp <> bl ->
+  nth_error mm bp = Some pblk -> (0 < length pblk)%nat ->
+  callfx ext fuel (S (S d)) F_lbuf_jump [VPtr bl 0; VInt (Z.of_N c); VPtr bp 0; VInt 0] mm
+  = match mark_of lblk c with None => Ok (VInt 1, mm) | Some row => Ok (VInt 0, upd mm bp (upd pblk 0 (VInt row))) end.
+Proof.
+  intros Hb Hm Hc Hne Hp Hl. rewrite callfx_S by reflexivity. cbn [nth_error cprog F_lbuf_jump].
+  change (fn_nparams cf_lbuf_jump) with 4%nat. change (fn_nlocals cf_lbuf_jump) with 5%nat. cbn [length Nat.eqb Nat.sub repeat app].
+  destruct (body_lbuf_jump (callfx ext fuel (S d)) fuel mm bl lblk c bp pblk Hb Hm Hc Hne Hp Hl
+              (fun mm' => callfx_markidx ext mm' (Z.of_N c) d fuel ltac:(lia))) as (st & E).
+  rewrite E. destruct (mark_of lblk c); reflexivity.
+Qed.
+
+(* what is assumed of ext, the function in the place of ex_search: called with pat = &p, p at position i of s, it returns the
+   row the oracle gives (or -1), moves p to the position the oracle gives and changes nothing else; the oracle stays inside s *)
+Definition search_ext (ext : list val -> mem -> res (val * mem)) (search : Z -> bytes -> nat -> option Z * nat) (bs bn : nat) (s : bytes) : Prop :=
+  (forall mm i xr, str_at mm bs s -> nth_error mm bn = Some [VPtr bs (Z.of_nat i)] -> cell_at mm G_xrow xr -> (i < length s)%nat ->
+     ext [VPtr bn 0] mm = Ok (VInt (sres (fst (search xr s i))), upd mm bn [VPtr bs (Z.of_nat (snd (search xr s i)))])) /\
+  (forall xr i, (i < length s)%nat -> (i <= snd (search xr s i))%nat /\ (snd (search xr s i) <= length s)%nat).
+
+Lemma callx_ex_lineno ext m bs bn bl s i xrow len gbufs lblk search d fuel n j :
+  str_at m bs s -> bytes_lt256 s -> nth_error m bn = Some [VPtr bs (Z.of_nat i)] -> cell_at m G_xrow xrow ->
+  nth_error m G_bufs = Some gbufs -> nth_error gbufs BUFS_LB = Some (VPtr bl 0) ->
+  nth_error m bl = Some lblk -> nth_error lblk L_ln_n = Some (VInt len) -> marks_ints lblk ->
+  bs <> bn /\ G_xrow <> bn /\ G_bufs <> bn /\ bl <> bn -> int_ok xrow -> int_ok len ->
+  search_ext ext search bs bn s -> (i <= length s)%nat -> (2 * S (length s) <= fuel)%nat ->
+  CapDefs.ex_lineno len (mark_of lblk) search xrow s i = CapDefs.Ok (n, j) -> lineno_fit len (mark_of lblk) search xrow s i ->
+  exists j' nb, callfx ext fuel (S (S (S d))) F_ex_lineno [VPtr bn 0] m
+                = Ok (VInt n, upd m bn [VPtr bs (Z.of_nat j')] ++ [[VInt nb]]) /\
+                (j' = j \/ n = -2) /\ (i <= j')%nat /\ (j' <= length s)%nat /\ int_ok n.
+Proof.
+  intros Hs H256 Hn Hx Hb Hbl Hl Hln Hm Hne Hxr Hlen [Hext Hin] Hi Hf E Hfit.
+  destruct (lineno_body_ok m bs bn bl s i xrow len gbufs lblk Hs H256 Hn Hx Hb Hl Hne Hxr Hm (callfx ext fuel (S (S d)))
+              (fun mm H => callfx_ex_lbuf ext mm gbufs bl (S d) fuel H Hbl)
+              (fun mm H => callfx_lbuf_len ext mm bl lblk len (S d) fuel H Hln Hlen)
+              (fun mm c bp pblk H1 H2 H3 H4 H5 => callfx_lbuf_jump ext mm bl lblk c bp pblk d fuel H1 Hm H2 H3 H4 H5)
+              search
+              (or_intror (conj
+                 (fun i' n' Hi' => eq_trans (callfx_ext ext fuel (S d) _ _)
+                    (eq_trans (Hext (MM m bs bn i' n') i' xrow (MM_str m bs bn bl s i Hs Hn Hne i' n') (MM_num m bs bn i Hn i' n')
+                                 (MM_other m bs bn i Hn i' n' G_xrow _ (proj1 (proj2 Hne)) Hx) Hi')
+                              (f_equal (fun mm => Ok (VInt (sres (fst (search xrow s i'))), mm)) (updMM_num m bs bn i Hn i' n' _))))
+                 (Hin xrow)))
+              fuel n j Hi E Hfit Hf) as (j' & nb & Ex & R).
+  exists j', nb. split; [|exact R].
+  rewrite callfx_S by reflexivity. cbn [nth_error cprog F_ex_lineno]. change (fn_nparams cf_ex_lineno) with 1%nat. change (fn_nlocals cf_ex_lineno) with 2%nat.
+  cbn [length Nat.eqb Nat.sub repeat app]. rewrite Ex. reflexivity.
+Qed.
+
+(* ex_lineno and ex_region with searches, RELATIVE to ext: the statements of tr_ex_lineno / tr_ex_region for every address
+   string, about cprog linked with any ext that satisfies search_ext *)
+Theorem tr_ex_lineno_rel ext m bs bn bl s i xrow len gbufs lblk search d fuel :
+  str_at m bs s -> bytes_lt256 s -> nth_error m bn = Some [VPtr bs (Z.of_nat i)] -> cell_at m G_xrow xrow ->
+  nth_error m G_bufs = Some gbufs -> nth_error gbufs BUFS_LB = Some (VPtr bl 0) ->
+  nth_error m bl = Some lblk -> nth_error lblk L_ln_n = Some (VInt len) -> marks_ints lblk ->
+  bs <> bn /\ G_xrow <> bn /\ G_bufs <> bn /\ bl <> bn -> int_ok xrow -> int_ok len ->
+  search_ext ext search bs bn s -> (i <= length s)%nat -> (2 * S (length s) <= fuel)%nat ->
+  exists n j, CapDefs.ex_lineno len (mark_of lblk) search xrow s i = CapDefs.Ok (n, j) /\ (i <= j)%nat /\ (j <= length s)%nat /\
+    (lineno_fit len (mark_of lblk) search xrow s i ->
+     exists j' nb, callfx ext fuel (S (S (S d))) F_ex_lineno [VPtr bn 0] m
+                   = Ok (VInt n, upd m bn [VPtr bs (Z.of_nat j')] ++ [[VInt nb]]) /\
+                   (j' = j \/ n = -2) /\ (i <= j')%nat /\ (j' <= length s)%nat /\ int_ok n).
+Proof.
+  intros Hs H256 Hn Hx Hb Hbl Hl Hln Hm Hne Hxr Hlen Hext Hi Hf.
+  (* an oracle that agrees with search on s and stays inside every string *)
+  set (search1 := fun xr (t : bytes) k => if CapDefs.bytes_eqb t s then search xr t k else (@None Z, k)).
+  assert (Hm1 : forall xr k, CapDefs.ex_lineno len (mark_of lblk) search xr s k = CapDefs.ex_lineno len (mark_of lblk) search1 xr s k)
+    by (intros; unfold CapDefs.ex_lineno, search1; rewrite (cap_bytes_eqb_refl s); reflexivity).
+  destruct (CapProps.ex_lineno_ok len (mark_of lblk) search1 (mark_of_0 lblk)
+              ltac:(intros xr t k Hk; unfold search1; destruct (CapDefs.bytes_eqb t s) eqn:E; [apply cap_bytes_eqb_eq in E; subst t; apply (proj2 Hext); exact Hk|cbn [snd]; lia])
+              xrow s i Hi) as (n & j & E & L1 & L2).
+  rewrite <- Hm1 in E. exists n, j. split; [exact E|]. split; [exact L1|]. split; [exact L2|]. intro Hfit.
+  exact (callx_ex_lineno ext m bs bn bl s i xrow len gbufs lblk search d fuel n j Hs H256 Hn Hx Hb Hbl Hl Hln Hm Hne Hxr Hlen Hext Hi Hf E Hfit).
+Qed.
+
+Theorem tr_ex_region_rel ext m bs bb be bl s xrow len gbufs lblk vb0 e0 search d fuel :
+  str_at m bs s -> nonul s -> cell_at m G_xrow xrow ->
+  nth_error m bb = Some [vb0] -> nth_error m be = Some [VInt e0] ->
+  nth_error m G_bufs = Some gbufs -> nth_error gbufs BUFS_LB = Some (VPtr bl 0) ->
+  nth_error m bl = Some lblk -> nth_error lblk L_ln_n = Some (VInt len) -> marks_ints lblk ->
+  nth_error m G_lit_25_1 = Some gb_lit_25_1 -> rdist bs bb be bl ->
+  int_ok xrow -> int_ok len -> int_ok e0 -> 2 * Z.of_nat (S (length s)) <= 2147483647 ->
+  search_ext ext search bs (length m) s -> (2 * S (length s) <= fuel)%nat ->
+  exists r, region_full len (CapDefs.ex_lineno len (mark_of lblk) search) s xrow = CapDefs.Ok r /\
+    (region_fit len (mark_of lblk) search s xrow ->
+     exists m', callfx ext fuel (S (S (S (S d)))) F_ex_region [VPtr bs 0; VPtr bb 0; VPtr be 0] m
+                = Ok (VInt (b2z (fst (fst (fst r)))), m') /\
+       nth_error m' bb = Some [VInt (snd (fst (fst r)))] /\ nth_error m' be = Some [VInt (snd (fst r))] /\
+       cell_at m' G_xrow (snd r) /\
+       (forall b', (b' < length m)%nat -> b' <> bb -> b' <> be -> b' <> G_xrow -> nth_error m' b' = nth_error m b')).
+Proof.
+  intros Hs Hnn Hx Hbeg Hend Hb Hbl Hl Hln Hm Hlit Hdist Hxr Hlen He0 Hbig Hext Hf.
+  pose proof (nonul_lt256 s Hnn) as H256.
+  assert (Hlt : (bs < length m)%nat /\ (bb < length m)%nat /\ (be < length m)%nat /\ (bl < length m)%nat /\
+                (G_xrow < length m)%nat /\ (G_bufs < length m)%nat).
+  { unfold str_at, cell_at in *. repeat split; apply nth_error_Some; congruence. }
+  destruct (region_full_total len (mark_of lblk) search s xrow (mark_of_0 lblk) (proj2 Hext)) as (r & Er).
+  exists r. split; [exact Er|]. intro Hfit.
+  destruct Hlt as (L1 & L2 & L3 & L4 & L5 & L6).
+  destruct (region_body_ok m bs bb be bl s gbufs lblk len Hnn (conj L1 (conj L2 (conj L3 (conj L4 (conj L5 L6))))) Hdist Hlen
+              (callfx ext fuel (S (S (S d))))
+              (fun mm H => callfx_ex_lbuf ext mm gbufs bl (S (S d)) fuel H Hbl)
+              (fun mm H => callfx_lbuf_len ext mm bl lblk len (S (S d)) fuel H Hln Hlen)
+              search
+              (fun mm i xr vb e n j R Hi Ixr El Fl =>
+                 callx_ex_lineno ext mm bs (length m) bl s i xr len gbufs lblk search d fuel n j
+                   (ri_str _ _ _ _ _ _ _ _ _ _ _ _ _ R) H256 (ri_loc _ _ _ _ _ _ _ _ _ _ _ _ _ R) (ri_xrow _ _ _ _ _ _ _ _ _ _ _ _ _ R)
+                   (ri_bufs _ _ _ _ _ _ _ _ _ _ _ _ _ R) Hbl (ri_lbuf _ _ _ _ _ _ _ _ _ _ _ _ _ R) Hln Hm
+                   (conj (lt_ne _ _ L1) (conj (lt_ne _ _ L5) (conj (lt_ne _ _ L6) (lt_ne _ _ L4)))) Ixr Hlen Hext Hi Hf El Fl)
+              xrow vb0 e0 Hs Hx Hbeg Hend Hb Hl Hlit Hxr He0 Hbig fuel r Er Hfit Hf) as (st' & i' & Ex & R & _).
+  exists (memm st'). split.
+  - rewrite callfx_S by reflexivity. cbn [nth_error cprog F_ex_region]. change (fn_nparams cf_ex_region) with 3%nat. change (fn_nlocals cf_ex_region) with 6%nat.
+    cbn [length Nat.eqb Nat.sub repeat app]. rewrite Ex. reflexivity.
+  - destruct R as [A B C D E F G H]. repeat split; assumption.
+Qed.
